@@ -65,6 +65,7 @@ type FuncContract struct {
 	PanicsIf    []Clause
 	Extern      bool           // declared in an ext (.gowp) file
 	Ghosts      []GhostLoopVar // function-level ghost variables
+	GhostSets   []GhostLoopVar // ghostset $v := e: ghost statement executed on entry of the function (scalar ghost variables)
 	UnblocksOn  []Expr         // every blocking channel operation must be able to fire a receive on one of these channels
 	Durable     bool           // a durable step: callers assert their crash invariant after it
 	Crash       []Clause       // crashstates: holds at every crash point inside the function
@@ -117,7 +118,16 @@ type SpecFile struct {
 	Ignores    []string
 	Implements []ImplSpec
 	Inits      []GhostInit
+	CloseOnly  []CloseOnlySpec
 	Monitors   []*FuncContract // lock invariants: Recv/ParamNames[0] = object, Name = mutex field, Modifies = guarded locations, Ensures = invariant
+}
+
+// CloseOnlySpec declares a channel-typed struct field that is only ever closed and received from (never sent
+// on, never handed to other code): a receive on it completes only once it is closed. Checked syntactically.
+type CloseOnlySpec struct {
+	Pkg   string
+	Type  string
+	Field string
 }
 
 type ImplSpec struct {
@@ -131,11 +141,11 @@ var labelRe = regexp.MustCompile(`^([A-Za-z][A-Za-z0-9_\-]*):(?:[^:]|$)`)
 var clauseKW = map[string]bool{
 	"requires": true, "ensures": true, "modifies": true, "loop": true, "assume-only": true, "pure": true,
 	"inline": true, "assert": true, "assume": true, "props": true, "noframe": true, "fresh": true, "panics_if": true, "ghost": true,
-	"durable": true, "crashstates": true, "havoc": true, "guards": true, "invariant": true, "unblocks_on": true,
+	"durable": true, "crashstates": true, "havoc": true, "guards": true, "invariant": true, "unblocks_on": true, "ghostset": true,
 }
 var topKW = map[string]bool{
 	"func": true, "define": true, "abstract": true, "sort": true, "axiom": true, "ghost": true, "package": true, "ignore": true, "implements": true,
-	"monitor": true,
+	"monitor": true, "closeonly": true,
 }
 
 // readSpecLines extracts specification lines. For .go files only //@ lines count.
@@ -387,6 +397,15 @@ func ParseSpecFile(path string, pkgPath string) (*SpecFile, error) {
 			case "ignore":
 				sf.Ignores = append(sf.Ignores, strings.Fields(rest)...)
 				cur = nil
+			case "closeonly":
+				for _, f := range strings.Fields(rest) {
+					i := strings.LastIndex(f, ".")
+					if i <= 0 {
+						return nil, fmt.Errorf("%s:%d: closeonly wants Type.field", path, it.line)
+					}
+					sf.CloseOnly = append(sf.CloseOnly, CloseOnlySpec{curPkg, f[:i], f[i+1:]})
+				}
+				cur = nil
 			case "implements":
 				parts := strings.Fields(rest)
 				if len(parts) != 3 || parts[1] != "by" {
@@ -476,6 +495,16 @@ func ParseSpecFile(path string, pkgPath string) (*SpecFile, error) {
 				return nil, fmt.Errorf("%s:%d: %v", path, it.line, err)
 			}
 			cur.Ghosts = append(cur.Ghosts, GhostLoopVar{Name: n, Type: strings.TrimSpace(r2[:i]), Init: ini})
+		case "ghostset":
+			n, r2 := firstWord(rest)
+			if !strings.HasPrefix(n, "$") || !strings.HasPrefix(strings.TrimSpace(r2), ":=") {
+				return nil, fmt.Errorf("%s:%d: ghostset wants '$v := expr'", path, it.line)
+			}
+			e, err := ParseExpr(strings.TrimPrefix(strings.TrimSpace(r2), ":="))
+			if err != nil {
+				return nil, fmt.Errorf("%s:%d: %v", path, it.line, err)
+			}
+			cur.GhostSets = append(cur.GhostSets, GhostLoopVar{Name: n, Init: e})
 		case "havoc":
 			i := strings.LastIndex(rest, " at ")
 			if i < 0 {
